@@ -184,7 +184,7 @@ def lengths_for(rng, fl, fs):
     return sorted(l for l in L if l >= 0)
 
 
-def run_case(case, rec, mon=None):
+def _run_case(case, rec, mon=None):
     own = mon is None
     if own:
         monitor.detach_all()
@@ -223,6 +223,17 @@ def run_case(case, rec, mon=None):
     if own:
         monitor.report(rec)
         monitor.detach_all()
+
+
+def run_case(case, rec, mon=None):
+    """LOG_FLOOR_VALUE is a configuration value the statement refers to: a share of the cases runs with it changed after import"""
+    from ..common import config_value
+
+    floor = case.get("log_floor")
+    if floor is not None:
+        rec.count("cases_with_log_floor_" + repr(floor))
+    with config_value("LOG_FLOOR_VALUE", floor):
+        _run_case(case, rec, mon)
 
 
 def make_cfg(seed, idx):
@@ -265,7 +276,7 @@ def run_shard(spec, rec):
         monitor.detach_all()
         return
     for i in range(spec["a"], spec["b"]):
-        run_case({"idx": i, "seed": spec["seed"], "cfg": make_cfg(spec["seed"], i)}, rec, mon)
+        run_case({"idx": i, "seed": spec["seed"], "cfg": make_cfg(spec["seed"], i), "log_floor": [None, None, None, None, 1e-3, None, 1e-9][i % 7]}, rec, mon)
     rec.count("sanitizer_np_empty_intercepted", sanit.COUNTS["empty"] + sanit.COUNTS["empty_like"])
     sanit.uninstall([_sut])
     monitor.report(rec)
